@@ -20,3 +20,9 @@ func vParam(name string, def int) int         { panic("gosym intrinsic") } // bo
 func vOptFloat64(name string) *float64        { panic("gosym intrinsic") } // nil or pointer to a symbolic value (guarded, no fork)
 func vOptInt64(name string) *int64            { panic("gosym intrinsic") }
 func vDeepEq(a, b interface{}) bool           { panic("gosym intrinsic") } // reflect.DeepEqual as a solver term
+
+// oracles on JSON texts
+func vJSONEq(a, b []byte) bool      { panic("gosym intrinsic") } // equal as JSON values (member order irrelevant)
+func vJSONBytesEq(a, b []byte) bool { panic("gosym intrinsic") } // byte-identical encoder output
+func vJSONNoDup(a []byte) bool      { panic("gosym intrinsic") } // no object repeats a member name
+func vJSONValid(a []byte) bool      { panic("gosym intrinsic") }
